@@ -330,10 +330,10 @@ class TopoRunner:
                 "other_keys": sorted(set(at) - {RA.RESOURCE_TYPE, RA.RESOURCE_SITE, RA.RESOURCE_CPU, RA.RESOURCE_RAM, RA.RESOURCE_DISK,
                                                 RA.RESOURCE_COMPONENT, RA.RESOURCE_BW, RA.RESOURCE_FACILITY_PORT, RA.RESOURCE_FABNETV4_EXT,
                                                 RA.RESOURCE_FABNETV6_EXT, RA.RESOURCE_MIRROR_SITE})}}
-        if op == "Tally":
+        if op in ("Tally", "TallyASM"):
             from fim.logging.log_collector import LogCollector
             lc = LogCollector()
-            lc.collect_resource_attributes(source=t)
+            lc.collect_resource_attributes(source=t if op == "Tally" else t.graph_model)
             at = lc.attributes
             svc = {}
             for ty, bw in at["services"]:
